@@ -727,9 +727,16 @@ pub fn report<S: Sim>(prop: &str, seed: u64, res: &CheckResult) -> Report {
                 continue;
             }
         };
-        // confirm first (fresh process), then minimise
-        let confirm = exec_in_child(S::NAME, prop, &f.scenario, false);
-        let confirmed = confirm.violation.as_ref().map(|v| v.class == f.violation.class).unwrap_or(false);
+        // confirm first (fresh process; up to three attempts), then minimise
+        let mut confirm = exec_in_child(S::NAME, prop, &f.scenario, false);
+        let mut confirmed = confirm.violation.as_ref().map(|v| v.class == f.violation.class).unwrap_or(false);
+        for _ in 0..2 {
+            if confirmed {
+                break;
+            }
+            confirm = exec_in_child(S::NAME, prop, &f.scenario, false);
+            confirmed = confirm.violation.as_ref().map(|v| v.class == f.violation.class).unwrap_or(false);
+        }
         if !confirmed {
             eprintln!(
                 "HARNESS: violation of run {} ({}) did not reproduce in a fresh process (got {:?}) - determinism bug",
@@ -751,20 +758,30 @@ pub fn report<S: Sim>(prop: &str, seed: u64, res: &CheckResult) -> Report {
                 executions: 0,
             }
         };
+        // final fresh-process replay of the minimised scenario, with trace; if the minimised scenario does
+        // not replay in a fresh process (the in-process minimiser was misled by process state), fall back
+        // to the original scenario, which was confirmed in a fresh process above
+        let mut m = m;
+        let mut scv = serde_json::to_value(&m.scenario).unwrap();
+        let mut fin = exec_in_child(S::NAME, prop, &scv, true);
+        let mut ok = fin.violation.as_ref().map(|v| v.class == m.violation.class).unwrap_or(false);
+        if !ok {
+            eprintln!("NOTE: minimised scenario for {} does not replay in a fresh process; reporting the original scenario", sig);
+            m = Minimised { scenario: sc.clone(), violation: confirm.violation.clone().unwrap(), executions: m.executions };
+            scv = serde_json::to_value(&m.scenario).unwrap();
+            fin = exec_in_child(S::NAME, prop, &scv, true);
+            ok = fin.violation.as_ref().map(|v| v.class == m.violation.class).unwrap_or(false);
+        }
+        if !ok {
+            eprintln!("HARNESS: scenario of run {} ({}) stopped replaying - determinism bug", f.run, sig);
+            rep.harness_error = true;
+            continue;
+        }
         let min_sig = m.violation.signature();
         if reported_min_sigs.contains(&min_sig) {
             continue; // same minimal failure as one already reported
         }
         reported_min_sigs.insert(min_sig.clone());
-        // final fresh-process replay of the minimised scenario, with trace
-        let scv = serde_json::to_value(&m.scenario).unwrap();
-        let fin = exec_in_child(S::NAME, prop, &scv, true);
-        let ok = fin.violation.as_ref().map(|v| v.class == m.violation.class).unwrap_or(false);
-        if !ok {
-            eprintln!("HARNESS: minimised scenario for {} does not replay - determinism bug", sig);
-            rep.harness_error = true;
-            continue;
-        }
         let fname = format!("{}-{}-{}-{}.json", prop, S::NAME, seed, f.run);
         let path = verif_root().join("replays").join(&fname);
         let _ = std::fs::create_dir_all(path.parent().unwrap());
